@@ -50,6 +50,33 @@ def handle (op : String) (args : List String) (impl : String) : Option Verdict :
         | none => false
       | _ => false
     return ⟨m, ok, s!"cell:{kind}:{repr o}"⟩
+  | "seq", [its] => some <| Id.run do
+    -- sessions one after another on one relayer: one lock (and one counter set) per store, effects accumulate
+    let some steps := (items its ",").mapM (fun it => match it.splitOn ":" with
+      | [k, o] => do
+        let k' ← parseKind k
+        let (o', ret) ← parseOutcome o
+        pure (k, k', o', ret)
+      | _ => none) | return bad
+    let mut ec := Delta.start 0
+    let mut fr := Delta.start 0
+    let mut outs : List String := []
+    for (name, k, o, ret) in steps do
+      let onE := name.startsWith "e"
+      let cur := if onE then ec else fr
+      let some d := (sessionFrom true (table k) o cur.held).head? | return bad
+      let tot := cur.add d
+      if onE then ec := tot else fr := tot
+      outs := outs ++ [ret ++ ";" ++ showDelta tot]
+    let m := "|".intercalate outs
+    let parts := impl.splitOn "|"
+    let ok := parts.length = steps.length && (steps.zip parts).all fun ((_, k, o, _), p) =>
+      match p.splitOn ";" with
+      | [r, ds] => r != "hang" && (match parseDelta ds with
+        | some id => decide (Balanced id) && (o != .ran || decide (RunsUnderLock k id))
+        | none => false)
+      | _ => false
+    return ⟨m, ok, s!"seq:n={min steps.length 4}"⟩
   | "full", [kind] => some <| Id.run do
     -- ran and succeeded on every participating relayer; key generation / resharing additionally store the new
     -- share (one more access, which must be under the lock)
